@@ -108,6 +108,19 @@ def clone (l : List (K × V)) : List (K × V) := l.map (fun kv => (kv.1, kv.2))
 /-- `Array<K> keys()` -/
 def keys (l : List (K × V)) : List K := l.map (·.1)
 
+/-- `Map::Enumerator` / `foreach2` / range-for over `kv()`: `for(i = 0; i < length(); i++) yield a[i]`; a read
+outside the array makes the walk `none`; `fuel` bounds the iterations -/
+def walkFrom (l : List (K × V)) : Nat → Nat → Option (List (K × V))
+  | 0, _ => none
+  | f + 1, i =>
+    if i < l.length then
+      match l[i]? with
+      | none => none
+      | some kv => (walkFrom l f (i + 1)).map (kv :: ·)
+    else some []
+
+def walk (l : List (K × V)) : Option (List (K × V)) := walkFrom l (l.length + 1) 0
+
 /-- `operator==`: equal lengths and pairwise equal keys and values at the same positions -/
 def eq [DecidableEq K] [DecidableEq V] (a b : List (K × V)) : Bool :=
   if a.length ≠ b.length then false
